@@ -22,9 +22,14 @@ from mc.impl import I, P, PUSH, TY
 ID = 'C14'
 LEVEL = 'model_checking'
 RULE = ('state = contents of one set / one map; transitions = UPDATE, GET_AND_UPDATE, GET, MEM, SIZE, ITER{CONS}, MAP{..} with every key of '
-        'the universe and every value; closure of the reachable space (no depth bound); plus every literal of <=3 keys')
-BOUND = {'quick': '7 key types, |K|=4: all 16 sets and 81 maps (nat values {0,1}) per type, plus maps with string / bool values (falsy Python objects) for 3 key types; every operation in every state; literals of <=3 keys',
-         'thorough': '13 key types, |K|=4, the three value types for every key type, literals of <=4 keys'}
+        'the universe and every value; closure of the reachable space (no depth bound); plus every literal of <=3 keys; key universes include '
+        'composite keys (option / or / pair, nested up to 3 levels) whose deciding component is a falsy Python object next to None / the other branch; '
+        'non-trivial = (collection type, state with >=2 entries, operation) or one literal key sequence')
+BOUND = {'quick': '7 plain key types + 12 composite key types with empty / False / 0 / Unit / None payloads (option string|bytes|bool|nat|unit, option (option string), '
+                  'or string bytes, or bool (option bool), pair string bytes, pair (option bool) int, pair (pair nat (option bytes)) nat, pair int (or (option string) unit)), '
+                  '|K|<=4: all 2^|K| sets and 3^|K| maps (nat values {0,1}) per type, plus maps with string / bool values (falsy Python objects) for 3 key types; '
+                  'every operation in every state; literals of <=3 keys',
+         'thorough': '13 plain key types with the three value types each + the 12 composite falsy-payload key types, |K|<=4, literals of <=4 keys'}
 ASSUMPTIONS = ['the reference order of mc.ref.mtypes (validated by C03 against the statement\'s rules)']
 LEVEL_TEXT = ('the reachable state space per key type is finite and is explored completely with every operation applied in every state; '
               'assurance is exhaustive for the key universes, which are chosen so that naive orders disagree with the Tezos order')
@@ -48,16 +53,40 @@ KEYS = {
 }
 QUICK_TYPES = [INT, STRING, PII, ('option', INT), ('or', INT, NAT), ('address',), ('bytes',)]
 
+# Composite keys whose decisive component is a FALSY Python object ('' / b'' / False / 0 / Unit / None) sitting next to the "absent"
+# alternative of the wrapper (None of an option, the other branch of an or), at depth 1, 2 and 3: an order that tests truthiness
+# instead of presence confuses them.  The universes list the wrapper's smallest value first and second so that both insertion orders
+# (falsy payload into a collection holding None, and None into one holding the falsy payload) are reachable transitions.
+BYTES, BOOL, UNIT = ('bytes',), ('bool',), ('unit',)
+FALSY_KEYS = {
+    ('option', STRING): [None, ('Some', ''), ('Some', 'a'), ('Some', 'B')],
+    ('option', BYTES): [('Some', b''), None, ('Some', b'\x00'), ('Some', b'\xff')],
+    ('option', BOOL): [None, ('Some', False), ('Some', True)],
+    ('option', NAT): [('Some', 0), None, ('Some', 2), ('Some', 10)],
+    ('option', UNIT): [None, ('Some', ())],
+    ('option', ('option', STRING)): [('Some', None), None, ('Some', ('Some', '')), ('Some', ('Some', 'a'))],
+    ('or', STRING, BYTES): [('R', b''), ('L', ''), ('L', 'a'), ('R', b'\x00')],
+    ('or', BOOL, ('option', BOOL)): [('R', None), ('L', False), ('R', ('Some', False)), ('L', True)],
+    ('pair', STRING, BYTES): [('', b'\x00'), ('', b''), ('a', b''), ('B', b'')],
+    ('pair', ('option', BOOL), INT): [(('Some', False), -1), (None, 0), (('Some', False), 0), (None, -1)],
+    ('pair', ('pair', NAT, ('option', BYTES)), NAT): [((1, None), 9), ((1, ('Some', b'')), 0), ((0, ('Some', b'\x00')), 9), ((1, ('Some', b'')), 9)],
+    ('pair', INT, ('or', ('option', STRING), UNIT)): [(0, ('R', ())), (0, ('L', None)), (0, ('L', ('Some', ''))), (-1, ('R', ()))],
+}
+KEYS.update(FALSY_KEYS)
+QUICK_FALSY = list(FALSY_KEYS)   # cheap (about 1 CPU second per type): the quick tier explores all of them
+
 
 VALS = {'map': (NAT, [0, 1]), 'mapS': (STRING, ['', 'a']), 'mapB': (E.BOOL, [False, True])}
 
 
 def shards(tier, seed):
-    types = QUICK_TYPES if tier == 'quick' else list(KEYS)
+    types = QUICK_TYPES if tier == 'quick' else [t for t in KEYS if t not in FALSY_KEYS]
     n = 4
     out = [(kind, t, n) for t in types for kind in ('set', 'map')]
     # maps whose values are falsy Python objects ('' / False): "absent" must never be confused with "bound to an empty value"
     out += [(kind, t, n) for t in (types[:3] if tier == 'quick' else types) for kind in ('mapS', 'mapB')]
+    # keys that are / contain falsy Python objects next to None (see FALSY_KEYS)
+    out += [(kind, t, n) for t in (QUICK_FALSY if tier == 'quick' else list(FALSY_KEYS)) for kind in ('set', 'map')]
     return out
 
 
